@@ -173,6 +173,20 @@ def close(a, b, floaty, scale):
     return abs(a - b) <= tol
 
 
+def close_at(a, b, floaty, sa, sb, env):
+    """a, b: exact values of the two signatures at env.  Without floats: equality.  With floats: equal, or the
+    difference is within SLACK x the propagated rounding bounds of the two trees (exact.ev_err)."""
+    if a == b:
+        return True
+    if not floaty:
+        return False
+    va, ea = exact.ev_err(sa, env)
+    vb, eb = exact.ev_err(sb, env)
+    if ea is None or eb is None or va in (exact.UNDEF, exact.SKIP) or vb in (exact.UNDEF, exact.SKIP):
+        return True  # no usable bound at this point: not judged
+    return abs(a - b) <= exact.SLACK * (ea + eb) + F(1, 10 ** 300)
+
+
 def same_function(sa, sb):
     """Compare two non-equation signatures as functions of their variables."""
     va, vb = SG.variables(sa), SG.variables(sb)
@@ -191,7 +205,7 @@ def same_function(sa, sb):
             vd.decided = False
             continue
         vd.common += 1
-        if not close(a, b, floaty_c or ia or ib, max(sca, scb)):
+        if not close_at(a, b, floaty_c or ia or ib, sa, sb, dict(zip(names, pts[i]))):
             vd.same = False
             vd.witness = {"at": {k: str(x) for k, x in zip(names, pts[i])}, "before": str(a), "after": str(b)}
             return vd
@@ -226,6 +240,7 @@ def same_solutions(sa, sb):
     r1, r2 = eval_on(d1, names, pts, floaty_c), eval_on(d2, names, pts, floaty_c)
     vd.decided = decided
     k = None
+    krel = F(0)
     proportional = True
     mismatch = None
     for i, ((a, ia, sca), (b, ib, scb)) in enumerate(zip(r1, r2)):
@@ -237,14 +252,26 @@ def same_solutions(sa, sb):
             continue
         vd.common += 1
         fl = floaty_c or ia or ib
-        sc = max(sca, scb, F(1))
-        za = close(a, F(0), fl, sc)
-        zb = close(b, F(0), fl, sc)
-        if fl and (za != zb):
-            # near-zero under rounding: only trust clear cases
-            big = F(1, 10 ** 6) * sc
-            if not ((za and abs(b) > big) or (zb and abs(a) > big)):
+        if not fl:
+            za, zb = (a == 0), (b == 0)
+            rel = F(0)
+        else:
+            # zero-ness and proportionality are judged against propagated rounding bounds (exact.ev_err)
+            env = dict(zip(names, pts[i]))
+            _, ea = exact.ev_err(d1, env)
+            _, eb = exact.ev_err(d2, env)
+            if ea is None or eb is None:
                 continue
+            ta, tb = exact.SLACK * ea, exact.SLACK * eb
+            za, zb = abs(a) <= ta, abs(b) <= tb
+            if za != zb:
+                # only a clear case counts: the non-zero side must be far outside its own rounding bound
+                clear = (abs(b) > 1000 * tb + F(1, 10 ** 300)) if za else (abs(a) > 1000 * ta + F(1, 10 ** 300))
+                if not clear:
+                    continue
+            rel = F(0)
+            if not za and not zb:
+                rel = exact.SLACK * (ea / abs(a) + eb / abs(b))
         if za != zb:
             if mismatch is None:
                 mismatch = (i, a, b)
@@ -255,7 +282,8 @@ def same_solutions(sa, sb):
         ratio = b / a
         if k is None:
             k = ratio
-        elif not close(ratio, k, fl, max(abs(k), F(1))):
+            krel = rel
+        elif abs(ratio - k) > (rel + krel) * abs(k):
             proportional = False
     if mismatch is not None:
         i, a, b = mismatch
